@@ -13,6 +13,7 @@ import (
 	"strconv"
 	"strings"
 	"sync"
+	"sync/atomic"
 
 	"github.com/jackc/pgx/v5/pgtype"
 	wire "github.com/jeroenrinzema/psql-wire"
@@ -371,6 +372,11 @@ type session struct {
 	// decls: the application builds the declaration (parameter types) of a statement text once and hands the
 	// same slice to every Parse of that text, on whichever connection: the library only reads it
 	decls sync.Map
+	// holdCh, when set (multi-connection cases with Extra["hold"]): a validator asked about a password that
+	// starts with "okhold" does not answer before the channel is closed (a slow account store); while it
+	// waits `holding` is set, which the scheduler of the case treats as quiescence of that connection
+	holdCh  chan struct{}
+	holding atomic.Bool
 }
 
 // of returns the session the callback with this context belongs to.
